@@ -452,6 +452,119 @@ fn linearized_history(bk: usize, hist: &[Rev]) -> (Vec<u8>, BTreeMap<ObjectId, O
     (f, model)
 }
 
+/// Producer H: a HYBRID-REFERENCE base file (ISO 32000-1 7.5.8.4) - a classic table whose trailer names,
+/// with XRefStm, a cross-reference stream holding the type-2 entries of objects kept in an object stream -
+/// followed by ordinary Prev-chained table revisions. The compressed objects are never touched by the
+/// revisions: they must keep coming from the base.
+fn hybrid_history(bk: usize, hist: &[Rev]) -> (Vec<u8>, BTreeMap<ObjectId, Object>) {
+    let (mut objects, trailer, designated) = base(bk);
+    objects.insert((20, 0), Object::Dictionary(dict(vec![("Kind", name("Compressed")), ("N", Object::Integer(20)), ("Items", Object::Array(vec![Object::Integer(1), Object::Integer(2)]))])));
+    objects.insert((21, 0), Object::string_literal("compressed twenty-one"));
+    let mut model = objects.clone();
+    let compressed: Vec<ObjectId> = objects.iter().filter(|(id, o)| !designated.contains(id) && id.1 == 0 && !matches!(o, Object::Stream(_))).map(|(id, _)| *id).collect();
+    let cont_id = 30u32;
+    let xs_id = 31u32;
+    let size = 32u32;
+    let mut f = b"%PDF-1.6\n%\xe2\xe3\xcf\xd3\n".to_vec();
+    let mut entries: BTreeMap<u32, (usize, u16)> = BTreeMap::new();
+    for (id, o) in &objects {
+        if !compressed.contains(id) {
+            entries.insert(id.0, (f.len(), id.1));
+            f.extend_from_slice(&refpdf::indirect_bytes(*id, o));
+        }
+    }
+    // object stream
+    let mut index = String::new();
+    let mut body: Vec<u8> = vec![];
+    for id in &compressed {
+        index.push_str(&format!("{} {} ", id.0, body.len()));
+        let ind = refpdf::indirect_bytes(*id, &objects[id]);
+        // indirect_bytes gives "n g obj\n<object>\nendobj\n": keep the object only
+        let text = &ind[format!("{} {} obj\n", id.0, id.1).len()..ind.len() - b"\nendobj\n".len()];
+        body.extend_from_slice(text);
+        body.push(b'\n');
+    }
+    let mut data = index.clone().into_bytes();
+    data.extend_from_slice(&body);
+    entries.insert(cont_id, (f.len(), 0));
+    f.extend_from_slice(format!("{} 0 obj\n<</Type /ObjStm/N {}/First {}/Length {}>>\nstream\n", cont_id, compressed.len(), index.len(), data.len()).as_bytes());
+    f.extend_from_slice(&data);
+    f.extend_from_slice(b"\nendstream\nendobj\n");
+    // cross-reference stream for the compressed objects only
+    let mut rows: Vec<u8> = vec![];
+    let mut idx = String::new();
+    for (i, id) in compressed.iter().enumerate() {
+        rows.push(2);
+        rows.extend_from_slice(&cont_id.to_be_bytes());
+        rows.extend_from_slice(&(i as u16).to_be_bytes());
+        idx.push_str(&format!("{} 1 ", id.0));
+    }
+    let xs_off = f.len();
+    entries.insert(xs_id, (xs_off, 0));
+    f.extend_from_slice(format!("{} 0 obj\n<</Type /XRef/Size {}/W [1 4 2]/Index [{}]/Length {}>>\nstream\n", xs_id, size, idx.trim_end(), rows.len()).as_bytes());
+    f.extend_from_slice(&rows);
+    f.extend_from_slice(b"\nendstream\nendobj\n");
+    let base_x = f.len();
+    f.extend_from_slice(&table_section(&entries, true));
+    let mut t = trailer.clone();
+    t.set("Size", Object::Integer(size as i64));
+    t.set("XRefStm", Object::Integer(xs_off as i64));
+    f.extend_from_slice(b"trailer\n");
+    f.extend_from_slice(&refpdf::dict_bytes(&t));
+    f.extend_from_slice(format!("\nstartxref\n{}\n%%EOF\n", base_x).as_bytes());
+    // appended revisions (classic tables)
+    let mut prev = base_x;
+    let mut next_new = size;
+    for (j, r) in hist.iter().enumerate() {
+        let mut entries: BTreeMap<u32, (usize, u16)> = BTreeMap::new();
+        for (bit, id) in designated.iter().enumerate() {
+            if r.mask & (1 << bit) != 0 {
+                let o = replacement(*id, j + 1, matches!(objects[id], Object::Stream(_)));
+                entries.insert(id.0, (f.len(), id.1));
+                f.extend_from_slice(&refpdf::indirect_bytes(*id, &o));
+                model.insert(*id, o);
+            }
+        }
+        for _ in 0..r.add {
+            let id = (next_new, 0);
+            next_new += 1;
+            let o = Object::Dictionary(dict(vec![("New", Object::Integer(id.0 as i64)), ("Rev", Object::Integer(j as i64 + 1))]));
+            entries.insert(id.0, (f.len(), 0));
+            f.extend_from_slice(&refpdf::indirect_bytes(id, &o));
+            model.insert(id, o);
+        }
+        let x = f.len();
+        f.extend_from_slice(&table_section(&entries, entries.is_empty()));
+        let mut t = trailer.clone();
+        t.set("Size", Object::Integer(next_new as i64));
+        t.set("Prev", Object::Integer(prev as i64));
+        f.extend_from_slice(b"trailer\n");
+        f.extend_from_slice(&refpdf::dict_bytes(&t));
+        f.extend_from_slice(format!("\nstartxref\n{}\n%%EOF\n", x).as_bytes());
+        prev = x;
+    }
+    (f, model)
+}
+
+fn check_h(bk: usize, hist: &[Rev]) -> Result<(), (bool, String)> {
+    let (bytes, model) = hybrid_history(bk, hist);
+    let loaded = util::load(&bytes);
+    match util::entry_point_agreement(&bytes, &loaded, true) {
+        Ok(None) => {}
+        Ok(Some(m)) => return Err((false, format!("entry points disagree: {}", m))),
+        Err(e) => return Err((true, e)),
+    }
+    let doc = loaded.map_err(|e| (false, e))?;
+    if let Some(m) = diff_null_tolerant(&model, &doc.objects) {
+        return Err((false, m));
+    }
+    let (_, trailer, _) = base(bk);
+    if let Some(m) = cmp::diff_trailer(&trailer, &doc.trailer) {
+        return Err((false, m));
+    }
+    Ok(())
+}
+
 fn check_l(bk: usize, hist: &[Rev]) -> Result<(), (bool, String)> {
     let (bytes, model) = linearized_history(bk, hist);
     // self-check: the strict reader follows the same chain (its Prev rule "points before the current
@@ -506,7 +619,9 @@ fn main() {
             .collect();
         let bk = c["base"].as_u64().unwrap() as usize;
         let table = c["style"].as_str() == Some("table");
-        let res = if c["producer"].as_str() == Some("L") {
+        let res = if c["producer"].as_str() == Some("H") {
+            check_h(bk, &hist).err().map(|e| e.1)
+        } else if c["producer"].as_str() == Some("L") {
             check_l(bk, &hist).err().map(|e| e.1)
         } else if c["producer"].as_str() == Some("A") {
             check_a_classes(bk, if table { Style::Table } else { Style::Stream }, &hist, c["container_base"].as_bool().unwrap_or(false), true, c["member_order"].as_u64().unwrap_or(0) as usize, c["xref_class"].as_u64().map(|x| x as usize)).err().map(|e| e.1)
@@ -522,10 +637,10 @@ fn main() {
     run.rule(
         "all histories of <= k revisions (k=2 quick, 3 thorough) over 3 base documents x revision menu {8 subsets of 3 designated objects to \
          replace} x {0,1,2 added objects} x {plain, object stream} (stream files) x {xref table, xref stream}; producer A = reference writer \
-         (every history prefix is itself a node of the tree and is loaded as a complete file; histories of <= 1 revision and every 8th longer one also with each of 15 cross-reference spelling classes - W widths incl. an absent type field, Index forms, filters, subsection forms - switched for all revisions; a replacement may be the null object), producer B = IncrementalDocument replay with reload \
+         (every history prefix is itself a node of the tree and is loaded as a complete file; histories of <= 1 revision and every 8th longer one also with each of 15 cross-reference spelling classes - W widths incl. an absent type field, Index forms, filters, subsection forms - switched for all revisions; a replacement may be the null object), producer H = hand-written hybrid-reference base (classic table + XRefStm + object stream) followed by the same table revisions, producer L = linearized-like base, producer B = IncrementalDocument replay with reload \
          after every step, also on base files with 7 kinds of white space after the final %%EOF and with 127..130 (to 300 in thorough) appended revisions, and on base files of 70 KB and ~16 MiB (offsets beyond 2^16 and 2^24); a state is a history prefix, a transition appends one revision; non-trivial = at least one object redefined",
     );
-    run.assume("no revision frees an object; no hybrid-reference files; the schedule is pinned (merge-order hook in Sorted mode), schedule independence is C08's subject");
+    run.assume("no revision frees an object; hybrid-reference files only in the form of producer H (a hybrid BASE whose compressed objects are never redefined); the schedule is pinned (merge-order hook in Sorted mode), schedule independence is C08's subject");
     let k = if run.thorough { 3 } else { 2 };
     for bk in 0..3usize {
         for style in [Style::Table, Style::Stream] {
@@ -599,6 +714,20 @@ fn main() {
                 run.add_states(hl.len() as u64);
                 run.add_transitions(hl.len() as u64 - 1);
                 util::par_for(hl.len(), |i| {
+                    run.eval(1);
+                    match check_h(bk, &hl[i]) {
+                        Ok(()) => run.add_traces(1),
+                        Err((true, m)) => {
+                            eprintln!("MACHINERY: {}", m);
+                            std::process::exit(3);
+                        }
+                        Err((false, m)) => run.fail(
+                            None,
+                            json!({"producer": "H", "base": bk, "style": "table", "history": hist_json(&hl[i])}),
+                            &m,
+                            "objects kept in the object stream of a hybrid-reference base revision keep resolving after revisions are appended; replaced and added objects come from the newest revision",
+                        ),
+                    }
                     run.eval(1);
                     match check_l(bk, &hl[i]) {
                         Ok(()) => run.add_traces(1),
